@@ -285,6 +285,8 @@ def rule_reach_whole_dag(ctx: Ctx) -> None:
 
 
 def run(ctx: Ctx) -> None:
+    from ..rules import order as _order
+    _order.rule_sequence_source(ctx, [("graphiq/circuit/circuit_dag.py", "CircuitDAG.to_json"), ("graphiq/circuit/circuit_dag.py", "CircuitDAG._slim_seq"), ("graphiq/circuit/circuit_base.py", "CircuitBase.to_openqasm")])
     rule_reach_whole_dag(ctx)
     from ..rules import memo as _memo
     _memo.rule_memo_sound(ctx, ['graphiq/circuit/circuit_dag.py', 'graphiq/circuit/circuit_base.py'])
@@ -301,6 +303,8 @@ def run(ctx: Ctx) -> None:
 
 
 KNOCKOUTS = [
+    Knockout("export-node-order", "graphiq/circuit/circuit_dag.py", sub_once("        for op in self.sequence():\n            if isinstance(op, ops.InputOutputOperationBase):", "        for op in [self.dag.nodes[k]['op'] for k in self.dag.nodes]:\n            if isinstance(op, ops.InputOutputOperationBase):"), "order.topological", "node-creation order"),
+
     Knockout("reach-partial-graph", DAG, sub_once("        ancestors = nx.ancestors(self.dag, first_edge[0])", "        ancestors = nx.ancestors(self.dag.subgraph([n for n in self.dag if not str(n).startswith('c')]), first_edge[0])"), "reach.whole-dag", "partial graph"),
     Knockout("wrapper-live-iteration", DAG, sub_once('wrapper_list = self.node_dict["OneQubitGateWrapper"].copy()', 'wrapper_list = self.node_dict["OneQubitGateWrapper"]'), "iter.snapshot", "iterated element"),
     Knockout("C1-drop-edge-dict-remove", DAG, sub_once("        self._edge_dict_remove(reg_type, edge_to_remove)\n        self.dag.remove_edges_from", "        self.dag.remove_edges_from"),
